@@ -258,7 +258,8 @@ def series_tables(chk, repo):
     it3 = Interp(repo, hooks={'if_test': if_test2, 'call': ch})
     ze = it3.call(mc, fz, [u, 2])
     x = X.sqrt(u)
-    ref = x * X.fn('spherical_jn', X.const(3), x) / X.fn('spherical_jn', X.const(2), x)
+    from ..core.interp import sph_bessel
+    ref = x * sph_bessel('spherical_jn', 3, x) / sph_bessel('spherical_jn', 2, x)
     dd = X.Decider(seed=chk.seed + 29, k=2)
     chk.ob('R04.2', 'cf_z_calc exact branch == x j_(l+1)(x) / j_l(x), x = sqrt(x^2)', dd.equal(ze, ref), f'extracted {X.show(ze)[:80]}', mc.where(fz), method='GF(p^2) PIT with uninterpreted Bessel functions')
 
